@@ -62,8 +62,10 @@ metadata.generation (so a status that lags behind keeps lagging; one that is AHE
 def sureFail (c : Obj) : Bool :=
   !c.ready || (match c.obsGen with | some g => decide (g < c.gen) | none => false)
 
+/-- facts about the objects of the LOCAL phases (objects of a delegated phase are the phase
+object's business: they are controlled by it, not by the ObjectSet). -/
 def factsOf (cfg : Cfg) (o : OSet) (s : Sys) : List (Nat × ObjFacts) :=
-  o.phases.zipIdx.flatMap fun (ph, i) => ph.objs.map fun p =>
+  o.phases.zipIdx.flatMap fun (ph, i) => (if ph.cls = "" then ph.objs else []).map fun p =>
     let k := keyOf cfg o.owner p
     let cur := s.w.store.get k
     (i, { p := p, key := k, cur := cur,
@@ -146,6 +148,13 @@ def judge (which : Which) (cfg : Cfg) (st : JStep) (pre : Sys) (out : StepOut) :
       match fs.find? (fun f => f.2.controlled) with
       | some f => return some s!"bad released-while-still-controlling {keyStr f.2.key}"
       | none => pure ()
+      -- delegated phases: the phase object (if it is ours) must be gone
+      for ph in o.phases do
+        if ph.cls != "" then
+          match pre.w.phases (o.name ++ "-" ++ ph.name) with
+          | some po => if po.ctrlName == o.name && po.ctrlUID == o.uid then
+              return some s!"bad released-while-delegated-phase-exists {po.name}"
+          | none => pure ()
     else if o.finCached then
       -- not released: the finalizer must not have been dropped, Archived must not be True
       if o.lifecycle == .archived && !(out.setEvents.any fun se => sOk se && hasCond (sConds se) "Archived" "False") && out.res == "ok" then
@@ -183,7 +192,13 @@ def judge (which : Which) (cfg : Cfg) (st : JStep) (pre : Sys) (out : StepOut) :
           let errorPath := cs.any fun c => c.1 == "Available" && (c.2.2.1 == "PreflightError" || c.2.2.1 == "CollisionDetected")
           for c in (if errorPath then [] else co) do
             match fs.find? (fun f => keyStr f.2.key == c) with
-            | none => return some s!"bad controllerOf-lists-unlisted-object {c}"
+            | none =>
+              -- relayed from a delegated phase: must be in that phase object's reported controllerOf
+              let relayed := o.phases.any fun ph => ph.cls != "" &&
+                (match pre.w.phases (o.name ++ "-" ++ ph.name) with
+                 | some po => po.controllerOf.any fun r => crefStr r == c
+                 | none => false)
+              if !relayed then return some s!"bad controllerOf-lists-unlisted-object {c}"
             | some f =>
               if !f.2.controlled && !(out.events.any fun e => eventVerb e == "A" && eventKey e == c) then
                 return some s!"bad controllerOf-entry-not-observed {c}"
@@ -202,7 +217,10 @@ def judge (which : Which) (cfg : Cfg) (st : JStep) (pre : Sys) (out : StepOut) :
       | none => return some "bad paused-status-not-reported"
       | some se =>
         let cs := sConds se
-        if !hasCond cs "Paused" "True" then return some "bad paused-condition-missing"
+        let delegated := o.phases.any (·.cls != "")
+        -- with delegated phases Paused=True additionally waits for every phase object to confirm
+        if !hasCond cs "Paused" "True" && !(delegated && hasCond cs "Paused" "Unknown") then
+          return some "bad paused-condition-missing"
         if !(cs.any fun c => c.1 == "Available") then return some "bad available-not-reported-while-paused"
     return none
 
